@@ -18,6 +18,10 @@ CLAIMED = {
   text="Machine-checked proof over all integers: bintime->datetime/hightime floor with error in [0, 1 unit), datetime->bintime floor (< 1 tick) and exact when representable, hightime->bintime nearest tick (<= 1/2 tick) and exact when representable, hightime->datetime floor, datetime->hightime->datetime and bintime->hightime->bintime identities, monotonicity of all four bintime conversions (incl. round-half-even), same-type identity, tz rules of the dispatch, TimeDelta(int) exact, TimeDelta(float|Decimal) nearest tick / exact / OverflowError iff out of range; built on integer pieces regenerated from _timedelta.py. Correspondence over all nine pairs (direct and through Timing.to_*), tz kinds, range edges, history-built sources; total_seconds (2 ulp) and precision_total_seconds round trip by exact-rational oracle in Coq (partial).",
   design="DESIGN.md §7 C04", tech="Coq proof (lia/nia with Euclidean division) over regenerated pieces + hand model of the Decimal/float entry point; in-Coq correspondence",
   note=TB + "translator; Model/Convert.v models Decimal (prec 64) and float entry points as exact rationals; datetime/hightime arithmetic outside /repo assumed exact."),
+ "C05": dict(
+  text="Machine-checked proof on element lists of any length: the 4-byte record layout (real at 0, imag at 2, decode.encode = id on int16 x int16), the interleave lemma (view flat -> map -> view pairs = pairwise map), ComplexInt32 -> complex is exactly real+imag*j and converting back returns the original pair for all pairs, length/shape preserved, truncation toward zero with |q - trunc q| < 1. Correspondence: all nine dtype pairs + unsupported dtypes, scalars and 0-d..3-d arrays in six memory layouts, float parts adjacent to every sampled integer, complex128->complex64 against an IEEE round-to-nearest-even model, byte layout; EXHAUSTIVE sweeps on the real code of all 65536 int16 values per field x both float widths x both directions (thorough: all 2^32 pairs).",
+  design="DESIGN.md §7 C05", tech="Coq proof over a hand model on logical element order + in-Coq correspondence + exhaustive int16 sweeps on the implementation",
+  note=TB + "NumPy view/astype/stride handling modelled (compared per run on every layout); sweeps compare with exact integer equality in the harness."),
  "C06": dict(
   text="Machine-checked proof for every mask, value, width and both bit orders: the regenerated while-loop of _mask_to_column_indices (translated to a fuelled Fixpoint; fuel proved sufficient) yields exactly the ascending list of set mask bits mapped to data columns; the unpacked row holds in column c the c-th highest (big) / c-th lowest (little) set bit, hence signal i = column n-1-i holds the i-th lowest / highest; one row per sample; masks with bits beyond the port width and negative masks raise ValueError. Correspondence over list / native / non-native byte order / strided / C- and F-ordered 2-D inputs, three state dtypes, windows, argument-intact and re-conversion probes.",
   design="DESIGN.md §7 C06", tech="Coq proof (induction on loop fuel, bit lemmas) over translator-regenerated mask logic + in-Coq correspondence",
